@@ -767,6 +767,25 @@ pub fn launcher_k<K: Kind>(args: &[String]) -> i32 {
         }
     }
 
+    // 2c. E2 campaign results (run by ./check before this binary in the thorough tier)
+    let mut fuzz_info = serde_json::json!(null);
+    if let Some(fp) = arg(args, "--fuzz-summary") {
+        if let Ok(txt) = std::fs::read_to_string(fp) {
+            let lines: Vec<&str> = txt.lines().filter(|l| l.starts_with("FUZZ:") || l.starts_with("fuzzjudge") || l.starts_with("VIOLATION")).collect();
+            for l in &lines {
+                if let Some(rest) = l.strip_prefix("VIOLATION ") {
+                    if let Some(pos) = rest.find("replay=") {
+                        violations.push((PathBuf::from(&rest[pos + 7..]), "found by the libFuzzer/ASan campaign (E2) and reproduced by the fork executor (E1)".to_string()));
+                    }
+                }
+            }
+            if lines.is_empty() {
+                undecided.push(format!("fuzz campaign produced no summary: {}", txt.lines().last().unwrap_or("")));
+            }
+            fuzz_info = serde_json::json!({"engine": "cargo-fuzz/libFuzzer + AddressSanitizer, in-process interpreter+model+judge, seeds from fuzz/seeds.tar.gz", "log": lines});
+        }
+    }
+
     // 3. evidence
     let wall = t0.elapsed().as_secs_f64();
     let mut labels = serde_json::Map::new();
@@ -805,6 +824,7 @@ pub fn launcher_k<K: Kind>(args: &[String]) -> i32 {
             "labels": labels,
             "totals": K::totals(c),
             "small_scope_sweep": sweep_info,
+            "e2_libfuzzer_campaign": fuzz_info,
             "workers": nworkers,
             "workers_on_plain_release_profile": alt_workers,
             "layouts_per_case": if tier == Tier::Thorough { p.layouts_thorough } else { p.layouts_quick },
